@@ -1,10 +1,13 @@
 import AmqModel.Driver.SmootherEngine
+import AmqModel.Driver.SlotsEngine
 namespace AmqModel.Driver
 
 def engineByName : String → Option Engine
   | "smoother" => some smootherEngine
   | "smoother-legacy" => some smootherLegacyEngine
   | "smoother-spec" => some smootherSpecEngine
+  | "slots" => some slotsEngine
+  | "slots-legacy" => some slotsLegacyEngine
   | _ => none
 
 end AmqModel.Driver
